@@ -955,10 +955,20 @@ func (r *runner) overtaken(label string, keys []string) bool {
 		if seen[k] {
 			continue
 		}
-		// a component of an entity whose deletion overtook the snapshot
+		// a component, action or asset of an entity whose deletion overtook the snapshot
+		var t, e uint32
 		if strings.HasPrefix(k, "comp:{") {
-			var t, e uint32
 			if _, err := fmt.Sscanf(k, "comp:{%d %d}", &t, &e); err == nil && seen[fmt.Sprintf("entc:%d", e)] {
+				continue
+			}
+		}
+		if strings.HasPrefix(k, "action:") {
+			if _, err := fmt.Sscanf(k, "action:%d/", &e); err == nil && seen[fmt.Sprintf("entc:%d", e)] {
+				continue
+			}
+		}
+		if strings.HasPrefix(k, "asset:") {
+			if _, err := fmt.Sscanf(k, "asset:%d", &e); err == nil && seen[fmt.Sprintf("entc:%d", e)] {
 				continue
 			}
 		}
